@@ -78,6 +78,8 @@ opaque!(BrokerHandle);
 pub struct ProtocolVersion { pub major: u32, pub minor: u32 }
 impl ProtocolVersion {
     pub const V1_16: Self = Self { major: 1, minor: 16 };
+    pub const V1_17: Self = Self { major: 1, minor: 17 };
+    pub const V1_18: Self = Self { major: 1, minor: 18 };
     pub const V1_19: Self = Self { major: 1, minor: 19 };
 
     pub open spec fn lex_cmp(a: Self, b: Self) -> core::cmp::Ordering {
